@@ -19,13 +19,15 @@ def only(*prefixes):
 
 CODEC_RULE = ("generated registries, alternately arbitrary ('wild': ids, references, array lengths and variant indices anywhere in u32/u8, "
               "including every compact size-class boundary 63/64/16383/16384/2^30-1/2^30/2^32-1; strings empty, long (63/64/65/200 bytes), multi-byte UTF-8) "
-              "and well-formed, sizes 0..12 and 63/64/65 entries, every TypeDef kind; each is encoded by the real Encode (enc case: bytes, decode(encode(r))==r, encode twice) ; "
+              "and well-formed, sizes 0..12 and 63/64/65 entries, every TypeDef kind; in one registry out of ten one list (variants, fields, tuple members, parameters, docs, path) has a length at a boundary of the format "
+              "(63/64/65, 255/256/257, 300), and two fixed registries carry lists of 16383 / 16384 elements; encodings too long to mutate are still decoded as they are and truncated once; each is encoded by the real Encode (enc case: bytes, decode(encode(r))==r, encode twice) ; "
               "each encoding is then mutated (truncation at a random and, for short ones, at every offset; bit flips; byte insertion/deletion/overwrite; "
               "leading length field replaced by boundary/huge values; non-canonical compact patterns; trailing bytes) plus random byte strings, and given to the real Decode under catch_unwind "
               "with a counting allocator (dec case). Non-trivial: registry non-empty (enc) / any dec case; distinct = distinct case lines.")
 
 REGISTRY_RULE = ("random type graphs of 1..48 (thorough 96) identities (uniform or local references; all eight definition kinds; self loops, mutual cycles, "
-                 "nodes first met as a type parameter, skipped parameters, the real PhantomData identity as parameter/field/element) loaded into a const-generic "
+                 "nodes first met as a type parameter, skipped parameters; in a third of the graphs one node is a real std identity - PhantomData<_>, (), str or u8, reached through several of its "
+                 "Rust aliases (PhantomData<u8>/<()>, Box<()>, &(), String, Box<String>, Arc<u8>, &mut u8) - as parameter/field/element/root) loaded into a const-generic "
                  "family Node<N>/Alias<N,K> whose type_info() goes through the real Type/Field/Variant constructors, x random histories of 1..8 (thorough 12) "
                  "register_type / register_types / map_into_portable calls with repeats and aliases, a snapshot of Registry::types() after every call. "
                  "Non-trivial: the final registry has at least one reference; distinct = distinct case lines.")
@@ -44,8 +46,9 @@ STD_RULE = ("a generated corpus of built-in type expressions (every constructor:
             "Non-trivial: a type with at least one encoded value / a definition with references.")
 
 DERIVE_RULE = ("generated Rust declarations deriving TypeInfo and Encode (harness/gen/gen_derive.py): structs and enums with named / unnamed / unit shapes, 0-2 type parameters (used directly, in Vec/Option/tuple/Box/array, "
-               "in PhantomData, skipped via skip_type_params), optional lifetime (&'a str members shown as 'static), members of built-in types nested to depth 2, earlier declarations, self references behind Box/Vec/Option, "
-               "#[codec(skip)], #[codec(compact)], #[codec(index = n)], explicit discriminants, #[scale_info(rename)], capture_docs in three values and three spellings, 0-3 replace_segment rows (matching and not), "
+               "in PhantomData, skipped via skip_type_params), optional lifetime (&'a str and Cow<'a, str> members, self references S<'a, ..>: shown as 'static in both positions), members of built-in types nested to depth 2, earlier declarations, self references behind Box/Vec/Option, "
+               "#[codec(skip)], #[codec(compact)], #[codec(index = n)], explicit discriminants, #[scale_info(rename)], capture_docs in three values and three spellings, 0-5 replace_segment rows (matching and not, the same search segment in several rows), skipped + compact + plain integer members in every relative order inside one member list, "
+               "a fixed catalogue of five declarations enumerating the syntactic forms of member type names (nested tuples, tuples as generic arguments, arrays of tuples, unit, markers inside tuples, references, Cow, ranges, maps, lifetimes), "
                "doc attributes with 0/1/2/3/5 leading spaces, empty and unicode lines, items nested 0-3 modules deep incl. raw module identifiers; each declaration instantiated 1-2 times, compiled against /repo "
                "twice (docs feature off / on); per instantiation the real type_info() (references resolved against the program's type table), the real registry and up to 3 values with their real bytes. "
                "Non-trivial: every case (each has at least a path); distinct = distinct case lines.")
@@ -136,7 +139,7 @@ PROPS = {
     ),
     'C17': dict(
         streams=[dict(name='build', quick=3000, thorough=300000, also_docs=True)],
-        rule="random builder programs executed on the real typestate builders, MetaForm (types Node<0..7>, PhantomData<u8> / PhantomData<Node<1>> as member types, compact::<u8|u32|u128>()) and PortableForm (arbitrary u32 ids): type-level setters before and after .path(..) (type_params, docs, docs_always / docs_portable, repeated: last wins), composite with unit / named / unnamed fields (0-4 field builders, name and type set in either order, type_name and docs setters before, between and after), variants (0-3, index at a random position, discriminant, fields set repeatedly), plus TypeDefTuple::new over lists with PhantomData members and From<TypeDef> for Type; each program run by a harness built WITHOUT and WITH scale-info's docs feature. Non-trivial: result has a reference or docs; distinct = distinct case lines.",
+        rule="random builder programs executed on the real typestate builders, MetaForm (types Node<0..7>, PhantomData<u8> / PhantomData<Node<1>> and the non-marker std types () / Box<()> / str / String as member types, compact::<u8|u32|u128>()) and PortableForm (arbitrary u32 ids): type-level setters before and after .path(..) (type_params, docs, docs_always / docs_portable, repeated: last wins), composite with unit / named / unnamed fields (0-4 field builders, name and type set in either order, type_name and docs setters before, between and after), variants (0-3, index at a random position, discriminant, fields set repeatedly), plus TypeDefTuple::new over lists with PhantomData members and From<TypeDef> for Type; each program run by a harness built WITHOUT and WITH scale-info's docs feature. Non-trivial: result has a reference or docs; distinct = distinct case lines.",
         trusted_base=COMMON_TB,
         assumptions=["typestate-invalid programs cannot be expressed (rustc rejects them: C20)",
                      "the PhantomData clause for the derive and the built-in impls is checked with C09/C04's corpora (scan for phantom members), see DESIGN.md"],
@@ -186,13 +189,13 @@ PROPS = {
     ),
     'C20': dict(
         custom='neg', streams=[], classes='bld,attr', n=dict(quick=480, thorough=6000), filter=only('C20:'),
-        rule="generated programs, each its own cargo bin target (compiled on its own): (bld) builder chains in MetaForm and PortableForm - a valid chain (type-level setters around .path, composite with unit/named/unnamed field builders with name/ty/type_name/docs in any order, variants with index/discriminant/docs/fields) or ONE mutation of it: path dropped or repeated, terminal dropped/moved/repeated, field kind swapped (named<->unnamed, ->unit), ty dropped or repeated, name added/dropped/repeated, index dropped or repeated; (attr) #[derive(TypeInfo)] on a struct with 0-2 parameters (inline TypeInfo bounds, so only the derive can reject) or a union, with attribute lists drawn from bounds / skip_type_params / capture_docs (valid values in several spellings, invalid ones) / crate / replace_segment / unknown keys, duplicated inside one attribute or across two, and bounds leaving a non-skipped parameter out (also after a skipped one). rustc's verdict per program vs Typestate.accepts / deriveAccepts. Non-trivial: a rejected program.",
+        rule="generated programs, each its own cargo bin target (compiled on its own): (bld) builder chains in MetaForm and PortableForm - a valid chain (type-level setters around .path, composite with unit/named/unnamed field builders with name/ty-or-compact/type_name/docs in any order, variants with index/discriminant/docs/fields) or ONE mutation of it: path dropped or repeated, terminal dropped/moved/repeated, field kind swapped (named<->unnamed, ->unit), ty dropped or repeated, name added/dropped/repeated, index dropped or repeated; (attr) #[derive(TypeInfo)] on a struct with 0-2 parameters (inline TypeInfo bounds, so only the derive can reject) or a union, with attribute lists drawn from bounds / skip_type_params / capture_docs (valid values in several spellings, invalid ones) / crate / replace_segment / unknown keys, duplicated inside one attribute or across two, and bounds leaving a non-skipped parameter out (also after a skipped one). rustc's verdict per program vs Typestate.accepts / deriveAccepts. Non-trivial: a rejected program.",
         trusted_base=COMMON_TB + ["rustc is the judge; the typestate automaton and the attribute validator are read off src/build.rs and derive/src/attr.rs and tied only by these verdicts"],
         assumptions=["TypeBuilder::<_, PathAssigned>::default() compiles and panics at run time (no ill-formed value results): outside the negative grammar, see DESIGN.md §6"],
     ),
     'C13': dict(
         custom='neg', streams=[], classes='gen', n=dict(quick=240, thorough=4000), filter=only('C13:'),
-        rule="generated generic declarations (struct or enum, 1-2 type parameters used directly, in Vec/Option/tuple/Box/BTreeMap, in PhantomData, through an associated type T::A, in self-referential positions, in helper generic types with and without TypeInfo; optional lifetime, const parameter, default, where-clause; skip_type_params, #[codec(skip)], #[codec(compact)], explicit bounds) each with ONE instantiation drawn from types with type info (u8, u32, String, Wrapper<u8>, Option<bool>, Good), without (NoInfo, Vec<NoInfo>), and trait impls whose associated type has / lacks type info; each program (declaration + `meta_type::<S<..>>()`) compiled on its own. Oracle: if the non-skipped parameters and the encoded members' types have type info (Spec.usableSpec) the program must compile. Correspondence: rustc's verdict = all predicates of the modelled where-clause hold (Bounds.usable).",
+        rule="generated generic declarations (struct or enum, 1-2 type parameters used directly, in Vec/Option/tuple/Box/BTreeMap, in PhantomData, through an associated type T::A, in self-referential positions, with declared where-clause predicates the derived impl has to repeat (T: Mk for a non-blanket marker trait, T: Tr moved out of the parameter list) with and without custom bounds, in helper generic types with and without TypeInfo; optional lifetime, const parameter, default, where-clause; skip_type_params, #[codec(skip)], #[codec(compact)], explicit bounds) each with ONE instantiation drawn from types with type info (u8, u32, String, Wrapper<u8>, Option<bool>, Good), without (NoInfo, Vec<NoInfo>), and trait impls whose associated type has / lacks type info; each program (declaration + `meta_type::<S<..>>()`) compiled on its own. Oracle: if the non-skipped parameters and the encoded members' types have type info (Spec.usableSpec) the program must compile. Correspondence: rustc's verdict = all predicates of the modelled where-clause hold (Bounds.usable).",
         trusted_base=COMMON_TB + ["rustc's trait solver is the judge; Bounds.hasInfo models which helper/built-in types implement TypeInfo"],
         assumptions=["self references are written with the bare identifier except in the flagged qualified-self cases (KNOWN-FINDING)"],
     ),
